@@ -488,6 +488,29 @@ func runC12(c *Ctx) {
 	}
 	sort.Strings(diff)
 	c.Check(fname(pf)+"#fields-written", pf.Pos(), len(diff) == 0, ifelse(len(diff) == 0, "builder writes the five upgrade fields", "builder and verifier disagree on the upgrade fields: "+strings.Join(diff, " ")))
+	// ending a proposal — failed or switched — clears every field of it: the verifier demands all four zero
+	{
+		c.sites++
+		zeroed := map[string]bool{}
+		for _, fw := range fieldWrites(cu) {
+			if !ownerOfField(hdr, fw.Field) {
+				continue
+			}
+			if st, ok := fw.Instr.(*ssa.Store); ok {
+				if n, isC := constInt(st.Val); isC && n == 0 {
+					zeroed[fw.Field.Name()] = true
+				}
+			}
+		}
+		var missing []string
+		for _, f := range upgradeFields {
+			if strings.HasPrefix(f, "Next") && !zeroed[f] {
+				missing = append(missing, f)
+			}
+		}
+		sort.Strings(missing)
+		c.Check(fname(cu)+"#clears-the-whole-proposal", cu.Pos(), len(missing) == 0, ifelse(len(missing) == 0, "every Next* field is set to zero", "clearUpgradeState leaves "+strings.Join(missing, ", ")+" behind: at the round a proposal fails or switches the builder emits a header the verifier rejects (upgrade fields not cleared), so the chain cannot pass that round"))
+	}
 	ic := w.Fn("core", "BlockChain", "InsertChain")
 	c.sawFunc(fname(ic))
 	vObj := w.FuncObj("core", "BlockChain", "VerifyYouVersionState")
